@@ -146,6 +146,10 @@ func vkNewScWorld() *vkScWorld {
 						if e.Family == 2 {
 							echo.Address = net.ParseIP("2001:db8:aa00::")
 						}
+					case "fam0": // ... or a non-zero SCOPE under a FAMILY it cannot be read with (0, no address)
+						echo.Family, echo.SourceNetmask, echo.Address = 0, 0, nil
+					case "mapped": // ... or FAMILY 2 with an IPv4-mapped address
+						echo.Family, echo.Address = 2, net.ParseIP("::ffff:10.9.9.0")
 					case "v6": // ... or the other family
 						echo.Family, echo.Address = 2, net.ParseIP("2001:db8:aa00::")
 						if e.Family == 2 {
@@ -160,7 +164,7 @@ func vkNewScWorld() *vkScWorld {
 						if bits > int(e.SourceNetmask) {
 							bits = int(e.SourceNetmask)
 						}
-						if w.echo == "v6" {
+						if w.echo == "v6" || w.echo == "fam0" || w.echo == "mapped" {
 							// the echo names an address of the OTHER family: its scope length says nothing about the
 							// forwarded subnet; the audience is exactly what was forwarded
 							bits = int(e.SourceNetmask)
@@ -587,7 +591,7 @@ func TestVerifC19Scoped(t *testing.T) {
 	// request); a client inside the echoed prefix that never asked, of either family, must not be served it.
 	echoWork := 0
 	for pi = 0; pi < vkScMainPolicies; pi++ {
-		for _, echo := range []string{"addr", "v6"} {
+		for _, echo := range []string{"addr", "v6", "fam0", "mapped"} {
 			for _, creator := range []int{0, 2, len(vkScClients) - 1} {
 				for _, s0 := range []int{16, 24, 56} {
 					echoWork++
